@@ -19,14 +19,14 @@ open Yadism
 /-! ## Which channel objects can the Combiner ever ask for?
 
 `chanSet isCC isPV` lists every `(family, class)` the kernel generators can produce for a
-parity-conserving / parity-violating kind and a neutral / charged process, with `pto_evol ≤ 2`
-(the range the runner accepts).  `collect_chans` proves, for **every** environment — any nf, any
+parity-conserving / parity-violating kind and a neutral / charged process, with `pto_evol ≤ 3`
+(the range of the theory card's `PTO`).  `collect_chans` proves, for **every** environment — any nf, any
 mass flags, any weights, any flavour and FONLL part — that nothing outside this list is requested;
 `chanSet_not_internal` then decides the finite question against the tables read from the live
 modules. -/
 
 def asyNames (channel : String) : List String :=
-  ["AsyLL" ++ channel, "AsyNLL" ++ channel, "AsyNNLL" ++ channel]
+  ["AsyLL" ++ channel, "AsyNLL" ++ channel, "AsyNNLL" ++ channel, "AsyNNNLL" ++ channel]
 
 def chanSet (isCC isPV : Bool) : List (String × String) :=
   (if isCC then
@@ -75,7 +75,7 @@ theorem within_flatten {S} {ls : List (List Kernel)} (h : ∀ l ∈ ls, within S
 theorem within_of_ids {S} {L : List Kernel} (h : ∀ i ∈ L.map idOf, i ∈ S) : within S L := by
   intro k hk; exact h (idOf k) (List.mem_map.mpr ⟨k, hk, rfl⟩)
 
-theorem asyName_mem (res : Nat) (h : res ≤ 2) (channel : String) :
+theorem asyName_mem (res : Nat) (h : res ≤ 3) (channel : String) :
     asyName res channel ∈ asyNames channel := by
   interval_cases res <;> simp [asyName, asyNames, List.replicate] <;> decide
 
@@ -95,7 +95,7 @@ theorem genMissing_chans (nf ihq : Nat) : within S (genMissing e nf ihq) := by
   unfold genMissing
   by_cases hcc : e.isCC <;> simp [hcc, mk, idOf, chanSet, asyNames]
 
-theorem genMissingAsy_chans (nf ihq : Nat) (hpe : e.ptoEvol ≤ 2) : within S (genMissingAsy e nf ihq) := by
+theorem genMissingAsy_chans (nf ihq : Nat) (hpe : e.ptoEvol ≤ 3) : within S (genMissingAsy e nf ihq) := by
   intro k hk
   unfold genMissingAsy at hk
   by_cases hcc : e.isCC
@@ -128,7 +128,7 @@ theorem genIntrinsicAsy_chans (nf ihq : Nat) : within S (genIntrinsicAsy e nf ih
   unfold genIntrinsicAsy
   by_cases hcc : e.isCC <;> by_cases hp : 0 < e.ptoEvol <;> simp [hcc, hp, mk, idOf, chanSet, asyNames]
 
-theorem genHeavyAsy_chans (nf ihq : Nat) (hpe : e.ptoEvol ≤ 2) : within S (genHeavyAsy e nf ihq) := by
+theorem genHeavyAsy_chans (nf ihq : Nat) (hpe : e.ptoEvol ≤ 3) : within S (genHeavyAsy e nf ihq) := by
   intro k hk
   unfold genHeavyAsy at hk
   by_cases hcc : e.isCC
@@ -150,7 +150,7 @@ theorem genHeavyAsy_chans (nf ihq : Nat) (hpe : e.ptoEvol ≤ 2) : within S (gen
 
 /-- **Every kernel the Combiner can collect is in `chanSet`** — for every environment with
 `pto_evol ≤ 2`, every flavour and every FONLL part. -/
-theorem collect_chans (fl : Flavor) (pa : Parts) (hpe : e.ptoEvol ≤ 2) : within S (collect e fl pa) := by
+theorem collect_chans (fl : Flavor) (pa : Parts) (hpe : e.ptoEvol ≤ 3) : within S (collect e fl pa) := by
   have hlight : within S (lightComponent e) := by
     simp only [lightComponent]
     refine within_append (genLight_chans e _) (within_flatten ?_)
@@ -231,7 +231,7 @@ theorem foldl_andThen_internal (f : Kernel → Outcome) (L : List Kernel) (acc :
 /-- **No internal error**: for every environment (any nf, mass flags, weights, Q²), flavour and
 FONLL part with `pto ≤ 3`, `pto_evol ≤ 2`, the structure function either is built or is rejected
 explicitly — never an internal lookup error. -/
-theorem no_internal_error (e : Env) (fl : Flavor) (pa : Parts) (hpto : e.pto ≤ 3) (hpe : e.ptoEvol ≤ 2) :
+theorem no_internal_error (e : Env) (fl : Flavor) (pa : Parts) (hpto : e.pto ≤ 3) (hpe : e.ptoEvol ≤ 3) :
     (sfOutcome Yadism.Gen.moduleTable e fl pa).isInternal = false := by
   by_contra hcon
   have hint : (sfOutcome Yadism.Gen.moduleTable e fl pa).isInternal = true := by
@@ -254,7 +254,7 @@ theorem no_internal_error (e : Env) (fl : Flavor) (pa : Parts) (hpto : e.pto ≤
 
 /-- with target-mass corrections (all three modes dispatch alike) -/
 theorem no_internal_error_tmc (tmc : Nat) (e : Env) (fl : Flavor) (pa : Parts) (hpto : e.pto ≤ 3)
-    (hpe : e.ptoEvol ≤ 2) :
+    (hpe : e.ptoEvol ≤ 3) :
     (tmcOutcome Yadism.Gen.moduleTable Yadism.Gen.tmcKinds tmc e fl pa).isInternal = false := by
   unfold tmcOutcome
   split
